@@ -95,8 +95,63 @@ def main(tier, seed):
     U = universe()
     rows, direct_bad, n_checks = [], [], 0          # rows: (coq expression : bool, implementation's answer : bool, description)
 
+    from tinyflux.storages import Storage as _Storage
+
+    class ListStorage(_Storage):
+        """a user's own storage class, written against the documented extension point (`class MyStorage(Storage)`): keeps the Points it is
+        handed in a list and hands them out again - what MemoryStorage does, without being a MemoryStorage"""
+
+        def __init__(self):
+            super().__init__()
+            self._initially_empty = True
+            self._rows, self._staged = [], []
+
+        def __iter__(self):
+            return iter(list(self._rows))
+
+        def __len__(self):
+            return len(self._rows)
+
+        def append(self, items, temporary=False):
+            (self._staged if temporary else self._rows).extend(items)
+
+        def read(self):
+            return super().read()
+
+        def reset(self):
+            self._rows = []
+
+        def close(self):
+            pass
+
+        def _cleanup_temp_storage(self):
+            self._staged = []
+
+        def _deserialize_measurement(self, item):
+            return item.measurement
+
+        def _deserialize_storage_item(self, item):
+            return item
+
+        def _deserialize_timestamp(self, item):
+            return item.time
+
+        def _init_temp_storage(self):
+            self._staged = []
+
+        def _serialize_point(self, point, *args, **kwargs):
+            return point
+
+        def _swap_temp_with_primary(self):
+            self._rows = self._staged
+
+        def _write(self, items):
+            self._rows = list(items)
+
     def fresh(csv):
-        if csv:
+        if csv == "custom":
+            db = tf.TinyFlux(storage=ListStorage)
+        elif csv:
             d = tempfile.mkdtemp(dir=str(ck.work))
             db = tf.TinyFlux(os.path.join(d, "db.csv"))
         else:
@@ -109,7 +164,7 @@ def main(tier, seed):
         if len(direct_bad) < 6:
             direct_bad.append({"kind": "failing-input", "entry_point": desc, "value": repr(v)[:120], "why": why, **(extra or {})})
 
-    for csv in (False, True):
+    for csv in (False, True, "custom"):
         db = fresh(csv)
         q_all = tf.TagQuery().a.exists()
         handle = db.measurement("m")
